@@ -612,7 +612,7 @@ static void legacy_all(unsigned seed)
    (litLength 1, offset 1, matchLength ml), all three symbol tables in RLE mode.  v0.6 / v0.7: ML code + extra bits in the
    backward bitstream; v0.5: matchLength through the "dumps".  Before 39f3df0 the one-shot legacy decoders regenerated
    whatever the sequences asked for (only the whole remaining dst limited a block) while ZSTD_decompressBound counted
-   128 KiB per compressed block; now a compressed block above 128 KiB is corruption_detected.  Required: a frame that
+   128 KiB per compressed block; now a compressed block above 128 KiB is corruption_detected (2e38602: a block of any type).  Required: a frame that
    decodes stays within ZSTD_decompressBound; a block of at most 128 KiB still decodes. */
 static const unsigned L2_mlBase[53] = { 3,4,5,6,7,8,9,10,11,12,13,14,15,16,17,18,19,20,21,22,23,24,25,26,27,28,29,30,31,32,33,34,
     35,37,39,41,43,47,51,59,67,83,99,0x83,0x103,0x203,0x403,0x803,0x1003,0x2003,0x4003,0x8003,0x10003 };
@@ -885,7 +885,7 @@ static void concat_case(unsigned k)
             int const ver = 5 + (int)(rnd() % 3); size_t hl = 0; unsigned char* f = buf + n;
             f[hl++] = (unsigned char)(0x20 + ver); f[hl++] = 0xB5; f[hl++] = 0x2F; f[hl++] = 0xFD; f[hl++] = (ver == 6) ? 0x08 : 0x00; if (ver == 7) f[hl++] = 0x50;
             if (ver == 5) anyLegacy5 = 1;
-            if (kind == 2) { size_t const sz = 1 + rnd() % 150000; size_t j; f[hl++] = (unsigned char)(0x40 | (sz >> 16)); f[hl++] = (unsigned char)(sz >> 8); f[hl++] = (unsigned char)sz;
+            if (kind == 2) { size_t const sz = 1 + rnd() % 131072;   /* since 2e38602 no legacy block may regenerate more than 128 KiB */ size_t j; f[hl++] = (unsigned char)(0x40 | (sz >> 16)); f[hl++] = (unsigned char)(sz >> 8); f[hl++] = (unsigned char)sz;
                 for (j = 0; j < sz; j++) f[hl + j] = (unsigned char)('a' + (j * 13 + i) % 26); memcpy(content + total, f + hl, sz); hl += sz; cl = sz; }
             else { unsigned const nbSeq = 1 + rnd() % 3; size_t const ml = 8 + rnd() % (131072 / nbSeq - 9); unsigned char blk[96]; size_t const bl = legacy2_block(blk, ver, nbSeq, ml); size_t j;
                 f[hl++] = 0; f[hl++] = (unsigned char)(bl >> 8); f[hl++] = (unsigned char)bl; memcpy(f + hl, blk, bl); hl += bl;
